@@ -167,6 +167,16 @@ CHECKS["C04"] = ("exploration",
     "a disconnect from inside connection_created may legitimately end without closed (documented in DESIGN.md)",
     "DESIGN.md C04")
 
+CHECKS["C06"] = ("exploration",
+    "hostile raw peers (handshake fuzz, accepted peers with lying headers on the raw channels) against an ASan server "
+    "with ring guard zones; liveness, descriptor and reported-length oracles",
+    "Raw socket peers send every prefix of a handshake, each field at boundary values, garbage, surplus and slow "
+    "bytes; accepted peers that performed the handshake themselves write datagrams / ring chunks whose header "
+    "disagrees with what was sent. The server's msg_process reads every byte it is told about, so an over-long "
+    "report is an ASan or guard-zone fault as well as a violation of reported <= min(sent, negotiated). A control "
+    "client must be served before and after and descriptors must return to the baseline.",
+    "max_msg_size capped at 4 MiB; asan server; 24 GiB guard zones", "DESIGN.md C06")
+
 REASON_PENDING = "check not registered yet in this revision (implementation in progress, see DESIGN.md section 7)"
 
 
